@@ -426,6 +426,14 @@ def correspondence(ctx, N, nmax):
 # ------------------------------------------------------------------ main loop
 
 
+
+def prepare(ctx):
+    """Translator tie (see gen_tie.py): the source of this slice is re-translated to Lean on every run
+    (harness/artv/htrans.py) and proved equal to the model the property theorems are about"""
+    from .gen_tie import gen_prepare, extra_theorems
+    from .. import htrans
+    gen_prepare(ctx, extra_theorems("htrans"), htrans.COVERS)
+
 def run(ctx):
     cov = ctx.cov
     N = ctx.scale(720, 9600)
